@@ -33,6 +33,11 @@ CONSTRUCTION = {"__init__", "gen_grid", "_gen_grid", "gen_and_time", "divide_edg
                 "_add_mid_edge_nodes", "_add_polytope_point", "_add_edges_of_len", "_add_average_point_and_edges"}
 
 
+# "every geometry getter ... (areas, volumes, adjacency, borders, distances, full array)": the common history-independence rules
+# (CACHE, ALIAS, FWDCOLLIDE ...) also report for the full-grid layer and the helpers it is built on
+EXTRA_MODULES = ["molgri.space.fullgrid", "molgri.space.utils", "molgri.space.translations"]
+
+
 def run(ctx, repo, tier):
     funcs = []
     for mn in SCOPE:
